@@ -1,0 +1,26 @@
+//go:build verif
+
+package cmd
+
+import (
+	"github.com/spf13/cobra"
+
+	"github.com/keep-network/keep-core/config"
+)
+
+// Thin exported wrappers used by the /verif harness (property C44). No behaviour of their own.
+
+// VerifInitGlobalFlags exposes initGlobalFlags (--config and the network selection flags).
+func VerifInitGlobalFlags(command *cobra.Command, configFilePath *string) {
+	initGlobalFlags(command, configFilePath)
+}
+
+// VerifInitFlags exposes initFlags (the per-category configuration flags).
+func VerifInitFlags(
+	command *cobra.Command,
+	configFilePath *string,
+	cfg *config.Config,
+	categories ...config.Category,
+) {
+	initFlags(command, configFilePath, cfg, categories...)
+}
